@@ -155,7 +155,7 @@ Qed.
 
 Theorem values_for_path_code_is_model : forall pf st m path subkeys,
   g_fieldSep st <> [] ->
-  fn_ValuesForPath (run_getSubKeyMap pf st) (run_hasSubKeys st) (run_oldValuesForPath pf st) (run_parsePath st) model_valuesForArray
+  fn_ValuesForPath (run_oldValuesForPath pf st) (run_getSubKeyMap pf st) (run_hasSubKeys st) (run_parsePath st) model_valuesForArray
     st m path subkeys
   = of_res (values_for_path pf (g_fieldSep st) (VMap m) path subkeys).
 Proof.
